@@ -37,6 +37,10 @@ package facts
 //               `if` duplicates the continuation into both branches (early return).
 // Panics        every x[i] / x[i:j] / make(T, n) is preceded by its bounds test (short-circuit aware); if it
 //               fails the body yields `none`. A body that indexes therefore has type `Option _`.
+// Steps         statements with effects outside the pure subset (mutex Lock/Unlock, channel send and
+//               receive, `defer`, calls of sibling methods that can fail) are accepted only where the
+//               FnSpec lists them as a Step with a Lean template (see Step); with FnSpec.Fail the
+//               body lives in `Except <fault>` (a failed bounds test = the panic fault).
 // Scoping       a `:=` that shadows a visible local is `unsupported_shadowing` (the rendering
 //               relies on Lean's `let` shadowing only for re-assignment).
 //
